@@ -1,5 +1,102 @@
 import KrroodVerif.Sexp
+import KrroodVerif.Model.Predicate
+/-!
+Driver for C12. One case:
+
+`(call <fn|method|pred> (params (a) (b 8) …) (pos <arg>…) (kw (name <arg>)…) (doms (0 1 2 3) (1 4) …) (pre 0 …)
+  (neg T|F) (body <salt> <modulus>) …)` with `<arg>` = `(l <value>)` or `(v <variable id>)`.
+
+`params` are the parameters the user can bind (default value after the name). For `method` the underlying function
+has `self` in front and the wrapper receives the receiver (value 0) as first positional argument; the driver adds
+both, so the model sees exactly what `symbolic_function.wrapper` sees. The body's result is
+`(salt + Σ (j+1)·value_j) mod modulus` over the parameter values the body receives; truth = non-zero.
+
+Output: `model=` (code as it is: `codeQuirks`), `model_fixed=` (F-C12-1 repaired), `model_f2=` (F-C12-2 repaired),
+`model_f12=` (both repaired), `spec=`, `trig=` (ids of the still-open findings whose trigger the input satisfies).
+-/
 namespace KrroodVerif.Drive.C12
-/-- stub: replaced when the model for C12 is built -/
-def run (_ : Sexp) : String := "model=unimplemented\tspec=unimplemented\ttrig="
+open KrroodVerif.Pred
+
+/-- The quirk setting of the code as it is at this commit of /verif (`model=`). When a finding is recorded as
+`fixed:` switch its flag off here in the same commit: `model=` then is the repaired model and the finding's id is
+no longer offered as an excuse in `trig=`. -/
+def codeQuirks : Quirks := { symFnIgnoresFirst := true, childVarsIndependent := true }
+
+def parseArg : Sexp → Option Arg
+  | .list [.atom "l", v] => v.asNat?.map Arg.lit
+  | .list [.atom "v", i] => i.asNat?.map Arg.var
+  | _ => none
+
+def parseParam : Sexp → Option Param
+  | .list [.atom n] => some ⟨n, none⟩
+  | .list [.atom n, d] => d.asNat?.map (fun d => ⟨n, some d⟩)
+  | _ => none
+
+def parseKw : Sexp → Option (String × Arg)
+  | .list [.atom n, a] => (parseArg a).map (fun a => (n, a))
+  | _ => none
+
+def parseDom : Sexp → Option (Nat × List Nat)
+  | .list (i :: vs) => do
+    let i ← i.asNat?
+    let vs ← vs.mapM Sexp.asNat?
+    pure (i, vs)
+  | _ => none
+
+def showArg : Arg → String
+  | .lit v => toString v
+  | .var i => s!"?{i}"
+
+def showTuple (xs : List String) : String := "(" ++ ",".intercalate xs ++ ")"
+
+def showOutcome (body : List Nat → Nat) : Outcome → String
+  | .invalid => "invalid"
+  | .concrete (.error _) => "exc:TypeError"
+  | .concrete (.ok t) =>
+    let r := body (t.map (subst Env.empty))
+    "C " ++ showTuple (t.map showArg) ++ (if r != 0 then " T" else " F")
+  | .symbolic (.error _) => "S exc:TypeError"
+  | .symbolic (.ok o) =>
+    "S log=" ++ showList (sortStrings (o.log.map (fun t => showTuple (t.map toString))))
+      ++ " rows=" ++ showList (sortStrings (dedupStrings (o.rows.map (fun t => showTuple (t.map toString)))))
+
+def mkBody (salt m : Nat) : List Nat → Nat := fun t =>
+  let rec go : Nat → List Nat → Nat
+    | _, [] => 0
+    | j, v :: r => (j + 1) * v + go (j + 1) r
+  (salt + go 0 t) % m
+
+def run (s : Sexp) : String :=
+  match s with
+  | .list (.atom "call" :: .atom kind :: items) =>
+    let r : Option String := do
+      let params ← (← Sexp.field? items "params").mapM parseParam
+      let pos ← (← Sexp.field? items "pos").mapM parseArg
+      let kw ← (← Sexp.field? items "kw").mapM parseKw
+      let doms ← (← Sexp.field? items "doms").mapM parseDom
+      let pre ← (← Sexp.field? items "pre").mapM Sexp.asNat?
+      let neg ← match Sexp.field? items "neg" with
+        | some [b] => b.asBool?
+        | _ => none
+      let (salt, m) ← match Sexp.field? items "body" with
+        | some [a, b] => do pure (← a.asNat?, ← b.asNat?)
+        | _ => none
+      let call : Call ← match kind with
+        | "fn" => some ⟨.symFn, params, pos, kw⟩
+        | "method" => some ⟨.symFn, ⟨"self", none⟩ :: params, .lit 0 :: pos, kw⟩
+        | "pred" => some ⟨.pred, params, pos, kw⟩
+        | _ => none
+      let body := mkBody salt m
+      let x : Experiment := ⟨call, fun i => (doms.lookup i).getD [], pre, neg, body⟩
+      let sh := showOutcome body
+      let trig := (if codeQuirks.symFnIgnoresFirst && trigPositional call then ["F-C12-1"] else [])
+        ++ (if codeQuirks.childVarsIndependent && trigShared x then ["F-C12-2"] else [])
+      pure (s!"model={sh (Pred.run codeQuirks x)}"
+        ++ s!"\tmodel_fixed={sh (Pred.run { codeQuirks with symFnIgnoresFirst := false } x)}"
+        ++ s!"\tmodel_f2={sh (Pred.run { codeQuirks with childVarsIndependent := false } x)}"
+        ++ s!"\tmodel_f12={sh (Pred.run Quirks.none x)}"
+        ++ s!"\tspec={sh (Pred.spec x)}\ttrig={",".intercalate trig}")
+    r.getD "error=bad-case"
+  | _ => "error=bad-case"
+
 end KrroodVerif.Drive.C12
